@@ -49,6 +49,10 @@ func Serve(handle func(job []byte) []byte) {
 	debug.SetPanicOnFault(true)
 	in := bufio.NewReaderSize(os.Stdin, 1<<20)
 	out := bufio.NewWriterSize(os.Stdout, 1<<20)
+	// code under test that prints to os.Stdout (the CLI run in-process) must not corrupt the frame stream
+	if dn, err := os.OpenFile(os.DevNull, os.O_WRONLY, 0); err == nil {
+		os.Stdout = dn
+	}
 	for {
 		job, err := readFrame(in)
 		if err != nil {
